@@ -109,6 +109,82 @@ func TestVerifC04(t *testing.T) {
 		h.Distinct("hostcharge", i)
 	}
 
+	// ---- part D: a host call the remaining gas cannot pay for, through Psi_H -------------------------------------------
+	// `ecalli id; trap` with every limit 1..14, id known / unknown / defined in the other table only. The ecalli instruction costs
+	// 1, the call 10: with fewer than 10 units left the invocation ends out-of-gas, nothing else changes, and the gas it reports
+	// as used is the whole limit (the machine's counter must not stay positive: GP u = ϱ - max(ϱ', 0)).
+	no := h.N(1500, 30000)
+	for i := 0; i < no; i++ {
+		if !h.Mine("hostoog", i) {
+			continue
+		}
+		h.CaseLight("hostoog", i)
+		r := h.Rng("hostoog", i)
+		table, tname := AccumulateOmegas, "accumulate"
+		if r.Bool() {
+			table, tname = RefineOmegas, "refine"
+		}
+		id := []uint64{uint64(r.IntN(27)), 100, uint64(27 + r.IntN(73)), uint64(101 + r.IntN(155)), uint64(256 + r.IntN(1<<20))}[r.IntN(5)]
+		known := id < uint64(len(table)) && table[id] != nil
+		if id == uint64(TransferOp) || id == uint64(LogOp) { // transfer charges 10 + l, log is free: other rules
+			continue
+		}
+		a := &refpvm.Asm{}
+		a.Label()
+		a.Ecalli(id, refpvm.ImmLen(id))
+		a.Trap()
+		limit := Gas(1 + i%14)
+		c := vNewHC(r)
+		for k := range c.regs {
+			c.regs[k] = r.U64()
+		}
+		regs0 := c.regs
+		px0 := vProjectCtx(&c.add.ResultContextX)
+		mem0 := vSnapMem(c.mem)
+		var res Psi_H_ReturnType
+		pn, msg, st := vh.Guard(func() {
+			prog, er := DeBlobProgramCode(a.Blob(nil, 1))
+			if er != ExitContinue {
+				panic("deblob")
+			}
+			c.add.Program = &prog
+			res = NewHost(&prog, c.regs, c.mem, limit, c.add, table).HostCall(0, 0)
+		})
+		d := map[string]any{"id": id, "table": tname, "known": known, "limit": limit}
+		if pn {
+			d["panic"], d["stack"] = msg, st
+			h.Viol("hostoog", i, "", "host call with little gas: go panic", d)
+			continue
+		}
+		left := int64(limit) - 1 // after the ecalli instruction itself
+		d["exit"], d["gas_after"] = res.ExitReason.String(), int64(*res.VM.Gas)
+		if left < 10 {
+			ch, _ := vMemRanges(mem0, c.mem)
+			used := int64(limit) - max(int64(*res.VM.Gas), 0)
+			switch {
+			case res.ExitReason.GetReasonType() != OUT_OF_GAS:
+				h.Viol("hostoog", i, "", "charge: host call not out-of-gas although fewer than 10 units were left", d)
+			case used != int64(limit):
+				d["reported_used"] = used
+				h.Viol("hostoog", i, "", "charge: an invocation that ran out of gas in a host call reports less than its limit as used", d)
+			case *res.VM.Registers != regs0 || len(ch) > 0 || vProjDiff(px0, vProjectCtx(&res.Addition.ResultContextX)) != "[]":
+				h.Viol("hostoog", i, "", "charge: out-of-gas host call had effects", d)
+			}
+			h.Inc("host_calls_the_gas_could_not_pay_for")
+		} else if left == 10 {
+			// the call is paid with the last unit; the trap behind it cannot be: out-of-gas one step later
+			if rt := res.ExitReason.GetReasonType(); (rt != OUT_OF_GAS && rt != PANIC) || *res.VM.Gas != 0 { // (PANIC: the call itself panicked on its random arguments)
+				h.Viol("hostoog", i, "", "charge: a host call paid with the last 10 units must leave exactly 0 and stop there or at the next instruction", d)
+			}
+			h.Inc("host_calls_paid_with_the_last_units")
+		} else if res.ExitReason.GetReasonType() == OUT_OF_GAS {
+			h.Viol("hostoog", i, "", "charge: out-of-gas although more than 10 units were left for the host call", d)
+		} else {
+			h.Inc("host_calls_the_gas_could_just_pay_for")
+		}
+		h.Distinct("hostoog", id, tname, int(limit))
+	}
+
 	// ---- part B: reported gas usage of Psi_M, including limits >= 2^63 -------------------------
 	bigLimits := []uint64{1 << 31, 1 << 32, 1 << 62, 1<<63 - 1, 1 << 63, 1<<63 + 1, 1<<64 - 1}
 	nm := h.N(3000, 50000)
